@@ -275,7 +275,7 @@ func TestVerifC36Exhaustive(t *testing.T) {
 	c := kit.Start(t, "C36", "exhaustive")
 	defer c.Finish()
 	logging.Base().SetLevel(logging.Error) // Sign warns on every refused identifier
-	triples := !c.Quick()
+	triples := !c.Quick() && c.Lane != "asan" // the sanitizer lane re-runs singles and pairs (same C code paths, ~5x slower)
 	c.Rule("all (numBatches in 1..4) x (keyDilution in {1,2,3,5,8}) x (startBatch 0 or 3; both in thorough): every single DeleteBeforeFineGrained point, every ORDERED pair of points (non-monotone pairs included; the watermark is the max)" +
 		map[bool]string{true: ", every monotone triple of points", false: ""}[triples] +
 		"; points = every identifier of the range plus one before and two after it. After the last call every identifier of the range (+ one before, one after) is signed and verified on the live object and on the object decoded from the Snapshot encoding; every remaining secret is used to forge an earlier identifier; seeds of secrets recorded before deletion are searched in the encoding. distinct = (config, FirstBatch, len(Batches), FirstOffset, len(Offsets))")
